@@ -15,13 +15,13 @@ func withOnly(rs []hrun, only []string, panics bool) []hrun {
 	return out
 }
 
-const nContexts = 23
+const nContexts = 27
 
 func ctxRuns(thorough bool) []hrun {
 	var r []hrun
 	for df := 0; df <= 1; df++ {
 		for c := 0; c < nContexts; c++ {
-			if c >= 21 { // contexts with two and three holes: reduced shape alphabet unless thorough
+			if c == 21 || c == 22 { // contexts with two and three holes: reduced shape alphabet unless thorough
 				if thorough {
 					r = append(r, hrun{Harness: "ParseCtx", Params: P("CTX", c, "S", 1, "DF", df)})
 				} else if df == 0 {
@@ -30,7 +30,7 @@ func ctxRuns(thorough bool) []hrun {
 				continue
 			}
 			r = append(r, hrun{Harness: "ParseCtx", Params: P("CTX", c, "S", 1, "DF", df)})
-			if (df == 0 || thorough) && c != 2 && c < 21 { // contexts with several holes only get one slot per hole
+			if (df == 0 || thorough) && c != 2 && c != 21 && c != 22 { // contexts with several holes only get one slot per hole
 				r = append(r, hrun{Harness: "ParseCtx", Params: P("CTX", c, "S", 2, "DF", df)})
 			}
 		}
@@ -49,7 +49,7 @@ func deriveRuns(thorough bool) []hrun {
 			r = append(r, hrun{Harness: "DeriveTokens", Params: P("K", k, "DF", df)})
 		}
 		for c := 0; c < nContexts; c++ {
-			if c >= 21 {
+			if c == 21 || c == 22 {
 				if thorough {
 					r = append(r, hrun{Harness: "DeriveCtx", Params: P("CTX", c, "S", 1, "DF", df)})
 				} else if df == 0 {
@@ -58,7 +58,7 @@ func deriveRuns(thorough bool) []hrun {
 				continue
 			}
 			r = append(r, hrun{Harness: "DeriveCtx", Params: P("CTX", c, "S", 1, "DF", df)})
-			if (df == 0 || thorough) && c != 2 && c < 21 {
+			if (df == 0 || thorough) && c != 2 && c != 21 && c != 22 {
 				r = append(r, hrun{Harness: "DeriveCtx", Params: P("CTX", c, "S", 2, "DF", df)})
 			}
 		}
@@ -72,7 +72,7 @@ var c03ids = []string{"fragment-renders", "sql-means-query", "inline-numbers-are
 var c04ids = []string{"inline-ok-implies-param-ok", "param-count", "param-no-inline-values", "param-values-in-order", "param-substitution-equals-inline",
 	"param-means-inline", "same-outcome-for-same-kinds", "sql-text-independent-of-values", "param-count-independent-of-values", "value-param-confined", "value-param-equals-inline-constant"}
 
-const nSQLForms = 30
+const nSQLForms = 34
 
 func sqlRuns(thorough bool, concrete int) []hrun {
 	var r []hrun
@@ -94,6 +94,12 @@ func identRuns(thorough bool) []hrun {
 		{Harness: "IdentConfined", Params: P("MODE", 1, "UNITS", 0)}, {Harness: "IdentConfined", Params: P("MODE", 1, "UNITS", 1)}, {Harness: "IdentConfined", Params: P("MODE", 1, "UNITS", 2)},
 	}
 	r = append(r, hrun{Harness: "IdentConfined", Params: P("MODE", 0, "UNITS", 3)}, hrun{Harness: "IdentConfined", Params: P("MODE", 1, "UNITS", 3)})
+	for tail := 1; tail <= 5; tail++ {
+		r = append(r, hrun{Harness: "IdentConfined", Params: P("MODE", 0, "UNITS", 2, "TAIL", tail)})
+		if thorough {
+			r = append(r, hrun{Harness: "IdentConfined", Params: P("MODE", 0, "UNITS", 3, "TAIL", tail)}, hrun{Harness: "IdentConfined", Params: P("MODE", 1, "UNITS", 2, "TAIL", tail)})
+		}
+	}
 	r = append(r, valueRuns(thorough)...)
 	return r
 }
@@ -112,7 +118,7 @@ func valueRuns(thorough bool) []hrun {
 func indepRuns(thorough bool) []hrun {
 	var r []hrun
 	// parameter order in nestings of ranges, lists and strings (no row evaluation needed)
-	r = append(r, hrun{Harness: "SQLTree", Params: P("D", 2, "LEAVES", 3, "ONEDIGIT", 1, "NOROWS", 1)})
+	r = append(r, hrun{Harness: "SQLTree", Params: P("D", 2, "LEAVES", 3, "ONEDIGIT", 1, "NOROWS", 1, "OPS", 1)})
 	for f := 0; f < nSQLForms; f++ {
 		r = append(r, hrun{Harness: "ParamIndependent", Params: P("D", 0, "FORM", f)})
 	}
@@ -124,7 +130,7 @@ func indepRuns(thorough bool) []hrun {
 }
 
 func chainRuns() []hrun {
-	var r []hrun
+	r := []hrun{{Harness: "TreeTotality", Params: P("D", 1)}}
 	for sh := 0; sh < 8; sh++ {
 		r = append(r, hrun{Harness: "ParseChain", Params: P("N", 32, "SHAPE", sh)})
 	}
@@ -186,8 +192,10 @@ var props = map[string]propCfg{
 			{Harness: "TreeRoundTrip", Params: P("D", 2, "LEAVES", 0, "VARIANT", 0)},
 			{Harness: "TreeRoundTrip", Params: P("D", 2, "LEAVES", 0, "VARIANT", 1)},
 			{Harness: "TreeRoundTrip", Params: P("D", 3, "LEAVES", 3, "OPS", 1, "VARIANT", 0)},
+			{Harness: "TreeRoundTrip", Params: P("D", 3, "LEAVES", 3, "OPS", 4, "VARIANT", 0)},
 		},
 		Thorough: []hrun{
+			{Harness: "TreeRoundTrip", Params: P("D", 3, "LEAVES", 3, "OPS", 4, "VARIANT", 0)}, {Harness: "TreeRoundTrip", Params: P("D", 2, "LEAVES", 0, "OPS", 3, "VARIANT", 0)},
 			{Harness: "TreeRoundTrip", Params: P("D", 3, "LEAVES", 3, "OPS", 1, "VARIANT", 0)}, {Harness: "TreeRoundTrip", Params: P("D", 3, "LEAVES", 3, "OPS", 2, "VARIANT", 0)},
 			{Harness: "TreeRoundTrip", Params: P("D", 1, "LEAVES", 1, "VARIANT", 0)},
 			{Harness: "TreeRoundTrip", Params: P("D", 1, "LEAVES", 1, "VARIANT", 1)},
@@ -207,7 +215,7 @@ var props = map[string]propCfg{
 		Outside:  "longer sequences; literal contents outside the narrow shape classes (typed values of arbitrary words are covered by C08 and the K=1 wide slot of C01)",
 	},
 	"C07": {
-		Quick:    []hrun{{Harness: "TreeJuxtapose", Params: P("D", 2, "LEAVES", 0), InfoOnly: []string{"juxt-accepted"}}, {Harness: "TreeJuxtapose", Params: P("D", 1, "LEAVES", 1), InfoOnly: []string{"juxt-accepted"}}, {Harness: "TreeJuxtapose", Params: P("D", 3, "LEAVES", 3, "OPS", 1), InfoOnly: []string{"juxt-accepted"}}},
+		Quick:    []hrun{{Harness: "TreeJuxtapose", Params: P("D", 2, "LEAVES", 0), InfoOnly: []string{"juxt-accepted"}}, {Harness: "TreeJuxtapose", Params: P("D", 1, "LEAVES", 1), InfoOnly: []string{"juxt-accepted"}}, {Harness: "TreeJuxtapose", Params: P("D", 3, "LEAVES", 3, "OPS", 1), InfoOnly: []string{"juxt-accepted"}}, {Harness: "TreeJuxtapose", Params: P("D", 2, "LEAVES", 0, "OPS", 3), InfoOnly: []string{"juxt-accepted"}}},
 		Thorough: []hrun{{Harness: "TreeJuxtapose", Params: P("D", 2, "LEAVES", 0), InfoOnly: []string{"juxt-accepted"}}, {Harness: "TreeJuxtapose", Params: P("D", 1, "LEAVES", 1), InfoOnly: []string{"juxt-accepted"}}, {Harness: "TreeJuxtapose", Params: P("D", 3, "LEAVES", 3, "OPS", 1), InfoOnly: []string{"juxt-accepted"}}, {Harness: "TreeJuxtapose", Params: P("D", 3, "LEAVES", 3, "OPS", 2), InfoOnly: []string{"juxt-accepted"}}, {Harness: "TreeJuxtapose", Params: P("D", 2, "LEAVES", 2), InfoOnly: []string{"juxt-accepted"}}},
 		Bounds:   "all trees as in C05 that contain an AND node, each AND node in turn written as juxtaposition; both texts parsed by the real parser",
 		Outside:  "several gaps at once; deeper trees; a juxtaposition the parser rejects is informational (eligibility is defined by the parser accepting the text)",
@@ -216,12 +224,13 @@ var props = map[string]propCfg{
 		Quick: []hrun{
 			{Harness: "TreeLayout", Params: P("D", 1, "LEAVES", 1, "VARIANT", 0)}, {Harness: "TreeLayout", Params: P("D", 1, "LEAVES", 1, "VARIANT", 1)}, {Harness: "TreeLayout", Params: P("D", 1, "LEAVES", 1, "VARIANT", 2)},
 			{Harness: "TreeLayout", Params: P("D", 2, "LEAVES", 0, "VARIANT", 0)}, {Harness: "TreeLayout", Params: P("D", 2, "LEAVES", 0, "VARIANT", 1)},
-			{Harness: "TreeLayout", Params: P("D", 1, "LEAVES", 1, "VARIANT", 3)},
-			{Harness: "TreeLayout", Params: P("D", 3, "LEAVES", 3, "OPS", 1, "VARIANT", 2)},
+			{Harness: "TreeLayout", Params: P("D", 1, "LEAVES", 1, "VARIANT", 3)}, {Harness: "TreeLayout", Params: P("D", 1, "LEAVES", 1, "VARIANT", 4)},
+			{Harness: "TreeLayout", Params: P("D", 1, "LEAVES", 1, "VARIANT", 2, "DF", 1)},
 			{Harness: "LayoutTokens", Params: P("K", 2, "DF", 0)}, {Harness: "LayoutTokens", Params: P("K", 3, "DF", 0, "SHAPES", 1)},
 		},
 		Thorough: []hrun{
 			{Harness: "TreeLayout", Params: P("D", 1, "LEAVES", 1, "VARIANT", 3)}, {Harness: "TreeLayout", Params: P("D", 2, "LEAVES", 0, "VARIANT", 3)},
+			{Harness: "TreeLayout", Params: P("D", 3, "LEAVES", 3, "OPS", 1, "VARIANT", 2)}, {Harness: "TreeLayout", Params: P("D", 1, "LEAVES", 1, "VARIANT", 4)}, {Harness: "TreeLayout", Params: P("D", 1, "LEAVES", 1, "VARIANT", 2, "DF", 1)},
 			{Harness: "LayoutTokens", Params: P("K", 2, "DF", 0)}, {Harness: "LayoutTokens", Params: P("K", 2, "DF", 1)}, {Harness: "LayoutTokens", Params: P("K", 3, "DF", 0)}, {Harness: "LayoutTokens", Params: P("K", 4, "DF", 0, "SHAPES", 1)},
 			{Harness: "TreeLayout", Params: P("D", 1, "LEAVES", 1, "VARIANT", 0)}, {Harness: "TreeLayout", Params: P("D", 1, "LEAVES", 1, "VARIANT", 1)}, {Harness: "TreeLayout", Params: P("D", 1, "LEAVES", 1, "VARIANT", 2)},
 			{Harness: "TreeLayout", Params: P("D", 2, "LEAVES", 0, "VARIANT", 0)}, {Harness: "TreeLayout", Params: P("D", 2, "LEAVES", 0, "VARIANT", 1)}, {Harness: "TreeLayout", Params: P("D", 2, "LEAVES", 0, "VARIANT", 2)},
@@ -235,8 +244,12 @@ var props = map[string]propCfg{
 			{Harness: "TreeDefaultField", Params: P("D", 2, "LEAVES", 0, "DFKIND", 0)},
 			{Harness: "TreeDefaultField", Params: P("D", 1, "LEAVES", 1, "DFKIND", 0, "VARIANT", 1)},
 			{Harness: "TreeDefaultField", Params: P("D", 3, "LEAVES", 6, "OPS", 1, "DFKIND", 0)},
+			{Harness: "TreeDefaultField", Params: P("D", 1, "LEAVES", 7, "DFKIND", 0, "VARIANT", 2)},
+			{Harness: "TreeDefaultField", Params: P("D", 1, "LEAVES", 1, "DFKIND", 2)}, {Harness: "TreeDefaultField", Params: P("D", 1, "LEAVES", 1, "DFKIND", 3)},
 		},
 		Thorough: []hrun{
+			{Harness: "TreeDefaultField", Params: P("D", 1, "LEAVES", 7, "DFKIND", 0, "VARIANT", 2)}, {Harness: "TreeDefaultField", Params: P("D", 2, "LEAVES", 0, "DFKIND", 0, "VARIANT", 2)},
+			{Harness: "TreeDefaultField", Params: P("D", 1, "LEAVES", 1, "DFKIND", 2)}, {Harness: "TreeDefaultField", Params: P("D", 1, "LEAVES", 1, "DFKIND", 3)},
 			{Harness: "TreeDefaultField", Params: P("D", 3, "LEAVES", 6, "OPS", 1, "DFKIND", 0)}, {Harness: "TreeDefaultField", Params: P("D", 3, "LEAVES", 6, "OPS", 2, "DFKIND", 0)},
 			{Harness: "TreeDefaultField", Params: P("D", 1, "LEAVES", 1, "DFKIND", 0, "VARIANT", 1)}, {Harness: "TreeDefaultField", Params: P("D", 2, "LEAVES", 0, "DFKIND", 0, "VARIANT", 1)},
 			{Harness: "TreeDefaultField", Params: P("D", 1, "LEAVES", 1, "DFKIND", 0)}, {Harness: "TreeDefaultField", Params: P("D", 1, "LEAVES", 1, "DFKIND", 1)},
@@ -284,7 +297,6 @@ var props = map[string]propCfg{
 	"C14": {
 		Quick: []hrun{
 			{Harness: "Purity", Params: P("SRC", 0, "D", 1, "LEAVES", 1, "DF", 0)}, {Harness: "Purity", Params: P("SRC", 0, "D", 1, "LEAVES", 1, "DF", 1)},
-			{Harness: "Purity", Params: P("SRC", 0, "D", 2, "LEAVES", 0, "DF", 0)},
 			{Harness: "Purity", Params: P("SRC", 1, "K", 2, "DF", 0)},
 		},
 		Thorough: []hrun{
